@@ -15,7 +15,7 @@ IsOk(r) == regs[r].st = "ok"
 Alloc(r) == regs[r].st # "none"
 Ks == {B, 2 * B, 3 * B, 5 * B, KMax - B, KMax}
 Step(op, d, a, b, bits, rot, k, ld, plb, vec) ==
-  [op |-> op, d |-> d, a |-> a, b |-> b, bits |-> bits, rot |-> rot, k |-> k, ld |-> ld, plb |-> plb, vec |-> vec, pld |-> 0, pplb |-> 0, pmag |-> 0, cst |-> 0, c |-> 0]
+  [op |-> op, d |-> d, a |-> a, b |-> b, bits |-> bits, rot |-> rot, k |-> k, ld |-> ld, plb |-> plb, vec |-> vec, pld |-> 0, pplb |-> 0, pmag |-> 0, cst |-> 0, c |-> 0, pb |-> B]
 \* a step with a plaintext operand of precision (pld, pplb): a test vector (|v| <= 1) or a constant of the harness' table (|c| < 2)
 PStep(op, d, a, b, vec, cst, pld, pplb, isc) == [Step(op, d, a, b, 0, 0, 0, 0, 0, vec) EXCEPT !.pld = pld, !.pplb = pplb, !.pmag = IF isc THEN 1 ELSE 0, !.cst = cst]
 Plds == {12, 20, 30, 40}
@@ -61,6 +61,12 @@ PtAssign == \E op \in {"add_ptv_assign", "sub_ptv_assign", "mul_ptv_assign", "ad
          /\ IsOk(d)
          /\ (op = "mul_ptv_assign" => LastStep \/ NoSpare(d))
          /\ Do(PStep(op, d, d, 0, v % 2, v, pld, pplb, op \in {"add_ptc_assign", "sub_ptc_assign", "mul_ptc_assign"}))
+\* vector plaintexts given in limb form (znx), in the ciphertext's radix or in another one (refused for add / sub)
+PtZnx == \/ \E op \in {"add_ptz_into", "sub_ptz_into", "mul_ptz_into"}, d, a \in Regs, pld \in Plds, pplb \in Pplbs, v \in 0..1, pb \in {B, B - 1} :
+              /\ IsOk(a) /\ Alloc(d) /\ d # a /\ (op = "mul_ptz_into" => pb = B /\ (LastStep \/ NoSpare(a)))
+              /\ Do([PStep(op, d, a, 0, v, 0, pld, pplb, FALSE) EXCEPT !.pb = pb])
+         \/ \E op \in {"add_ptz_assign", "sub_ptz_assign"}, d \in Regs, pld \in Plds, pplb \in Pplbs, v \in 0..1, pb \in {B, B - 1} :
+              /\ IsOk(d) /\ Do([PStep(op, d, d, 0, v, 0, pld, pplb, FALSE) EXCEPT !.pb = pb])
 FusedCt == \E op \in {"mul_add_ct", "mul_sub_ct"}, d, a, b \in Regs : IsOk(d) /\ IsOk(a) /\ IsOk(b) /\ d # a /\ d # b /\ (LastStep \/ (NoSpare(a) /\ NoSpare(b))) /\ Do(Step(op, d, a, b, 0, 0, 0, 0, 0, 0))
 FusedOp == \E op \in {"mul_add_ptv", "mul_sub_ptv", "mul_add_ptc", "mul_sub_ptc"}, d, a \in Regs, pld \in Plds, pplb \in Pplbs, v \in 0..3 :
                 /\ IsOk(d) /\ IsOk(a) /\ d # a
@@ -83,15 +89,15 @@ Finish == /\ Len(prog) = Depth /\ ~done /\ done' = TRUE
           /\ PrintT(<<"PROG", ToJson([n |-> 2 ^ LogN, b |-> B, kmax |-> KMax, be |-> be, prog |-> prog])>>)
           /\ UNCHANGED <<regs, prog, fam, be>>
 \* two-phase choice (family first, then parameters) so that every operation family is equally likely in simulation
-Fams == {"enc", "alloc", "uninto", "unassign", "rot", "pow2", "addsub", "mul", "realloc", "ptinto", "ptassign", "fused", "fusedct", "addmany", "dotct", "mulmany"}
+Fams == {"enc", "alloc", "uninto", "unassign", "rot", "pow2", "addsub", "mul", "realloc", "ptinto", "ptassign", "fused", "fusedct", "addmany", "dotct", "mulmany", "ptznx"}
 Enabled(f) == CASE f = "enc" -> ENABLED Enc [] f = "alloc" -> ENABLED AllocD [] f = "uninto" -> ENABLED UnInto [] f = "unassign" -> ENABLED UnAssign
                 [] f = "rot" -> ENABLED Rot [] f = "pow2" -> ENABLED Pow2 [] f = "addsub" -> ENABLED AddSub [] f = "mul" -> ENABLED Mul
-                [] f = "ptinto" -> ENABLED PtInto [] f = "ptassign" -> ENABLED PtAssign [] f = "fused" -> ENABLED FusedOp [] f = "fusedct" -> ENABLED FusedCt [] f = "addmany" -> ENABLED AddMany [] f = "dotct" -> ENABLED DotCt [] f = "mulmany" -> ENABLED MulMany [] OTHER -> ENABLED Realloc
+                [] f = "ptinto" -> ENABLED PtInto [] f = "ptassign" -> ENABLED PtAssign [] f = "fused" -> ENABLED FusedOp [] f = "fusedct" -> ENABLED FusedCt [] f = "addmany" -> ENABLED AddMany [] f = "dotct" -> ENABLED DotCt [] f = "mulmany" -> ENABLED MulMany [] f = "ptznx" -> ENABLED PtZnx [] OTHER -> ENABLED Realloc
 Pick == /\ fam = "" /\ Len(prog) >= 2 /\ Len(prog) < Depth /\ \E f \in Fams : Enabled(f) /\ fam' = f /\ UNCHANGED <<regs, prog, done, be>>
 DoFam == /\ fam # ""
          /\ CASE fam = "enc" -> Enc [] fam = "alloc" -> AllocD [] fam = "uninto" -> UnInto [] fam = "unassign" -> UnAssign
               [] fam = "rot" -> Rot [] fam = "pow2" -> Pow2 [] fam = "addsub" -> AddSub [] fam = "mul" -> Mul
-              [] fam = "ptinto" -> PtInto [] fam = "ptassign" -> PtAssign [] fam = "fused" -> FusedOp [] fam = "fusedct" -> FusedCt [] fam = "addmany" -> AddMany [] fam = "dotct" -> DotCt [] fam = "mulmany" -> MulMany [] OTHER -> Realloc
+              [] fam = "ptinto" -> PtInto [] fam = "ptassign" -> PtAssign [] fam = "fused" -> FusedOp [] fam = "fusedct" -> FusedCt [] fam = "addmany" -> AddMany [] fam = "dotct" -> DotCt [] fam = "mulmany" -> MulMany [] fam = "ptznx" -> PtZnx [] OTHER -> Realloc
 Next == \/ /\ Len(prog) < 2 /\ fam = "" /\ Enc
         \/ Pick \/ DoFam
         \/ Finish
